@@ -64,4 +64,12 @@ META = {
             "text": "The model theorem (folding the specified events gives the new contents) is checked exhaustively over 11 782 state/operation pairs; TLC-generated scripts are executed on the real "
                     "observable, a real mirror (local and remote) and a hand-written consumer, and TLC checks that all three equal the reference contents after every operation.",
             "note": "Bounds: 3 values, length <= 4, scripts of depth 4-5 sampled by TLC simulation. Trusted: TLC, harness stepper, JSON projection of contents and events."},
+    "C15": {"technique": "TLA+ model of the watch forwarding chain (Watch.tla, safety + liveness under fairness) + TLC trace validation of observation sequences (WatchTrace)",
+            "text": "TLC checks monotonicity and convergence to the last value over all interleavings of sends, forwarding and delivery on a 2-hop chain incl. sender drop after the last send; "
+                    "recorded observation sequences of real receivers (local, 1-2 hops, transferred mid-update) are checked for never going backwards and ending on the last value.",
+            "note": "Bounds: 2 hops x 4 values in the model; real code on seeded schedules. Trusted: TLC, harness."},
+    "C16": {"technique": "TLA+ model of broadcast fan-out and lag task (Broadcast.tla) + TLC trace validation of per-subscriber result sequences (BcastTrace)",
+            "text": "TLC checks the gap-marker, keep-up and never-blocked invariants over all interleavings of sends, lag-task steps and receives for 3 subscribers; "
+                    "recorded Ok/Lagged/Closed sequences of real local and remote subscribers are checked with the same formulas.",
+            "note": "Bounds: 3 subscribers, capacities 1-2, 5 values in the model. Trusted: TLC, harness."},
 }
